@@ -57,8 +57,14 @@ func main() {
 	}
 	bound := c.Pick(1, 2)
 	budget := c.PickD(80*time.Second, 15*time.Minute)
-	for _, n := range names {
-		st := explore.Explore(explore.Config{Scenario: "c02", Param: n, Bound: bound, Budget: budget / time.Duration(len(names))})
+	deadline := time.Now().Add(budget)
+	for i, n := range names {
+		// what is left of the budget is shared by the scenarios still to run
+		per := time.Until(deadline) / time.Duration(len(names)-i)
+		if per < 2*time.Second {
+			per = 2 * time.Second
+		}
+		st := explore.Explore(explore.Config{Scenario: "c02", Param: n, Bound: bound, Budget: per})
 		c.AddExplore(st)
 		c.AddCounts(0, 0, st.Counts["traces_replayed_on_real_directory"], 0, 0)
 		if c.Failed() {
